@@ -259,6 +259,8 @@ type replica struct {
 	checkGid    bool
 	obsFault    *cat.Fault // C07: stage 99 = the observer's value callback panics at invocation At; 98 = its terminal callback panics
 	obsN        int
+	cutOnGroup  int // higher-order outputs: leave the OUTER stream inside the callback that hands out this group (0 = never)
+	cutFn       func()
 	leaveGroups bool // higher-order outputs: unsubscribe from every inner observable after its first value
 }
 
@@ -296,6 +298,9 @@ func (r *replica) observer() ro.Observer[any] {
 					func(ctx context.Context) { recv("IC", fmt.Sprint(j), ctx) },
 				))
 				w.SubscribeWithContext(context.WithValue(context.Background(), rec.KeySub, true), me)
+				if r.cutOnGroup == j && r.cutFn != nil {
+					r.cutFn()
+				}
 				return
 			}
 			recv("N", cat.Canon(v), ctx)
